@@ -11,6 +11,20 @@ from esrally.track import track
 from engines import execharness, simes
 
 _registered = False
+# fault injection for C09 (set by the harness before a race, None otherwise):
+#   {"kind": "params-raise" | "partition-raise" | "runner-keyerror" | "runner-exception", "task": name, "client": index in task, "k": ordinal}
+FAULT = None
+FAULT_FIRED = []
+
+
+def _fault(kind, task, client=None, k=None):
+    f = FAULT
+    if f is None or f["kind"] != kind or f["task"] != task:
+        return False
+    if client is not None and (f.get("client") != client or f.get("k") != k):
+        return False
+    FAULT_FIRED.append(kind)
+    return True
 
 
 class VerifParamSource(track_params.ParamSource):
@@ -23,6 +37,8 @@ class VerifParamSource(track_params.ParamSource):
         self._finite = params.get("finite")  # number of requests after which StopIteration is raised (per client) or None
 
     def partition(self, partition_index, total_partitions):
+        if _fault("partition-raise", self._params.get("task")):
+            raise RuntimeError("verif: injected failure in partition()")
         p = VerifParamSource(self.track, self._params)
         p._client = partition_index
         return p
@@ -40,6 +56,8 @@ class VerifParamSource(track_params.ParamSource):
     def params(self):
         if self._finite is not None and self._k >= self._finite:
             raise StopIteration()
+        if _fault("params-raise", self._params.get("task"), self._client, self._k):
+            raise ValueError("verif: injected failure in params()")
         reqs = self._params["requests"][self._client % len(self._params["requests"])]
         r = dict(reqs[self._k % len(reqs)])
         r["_k"] = self._k
@@ -51,6 +69,10 @@ class VerifParamSource(track_params.ParamSource):
 
 async def verif_runner(es, params):
     """One logical request: optional client-side work before, n wire requests, optional client-side work after."""
+    if _fault("runner-keyerror", params.get("_task"), params.get("_client"), params.get("_k")):
+        raise KeyError("verif-missing-parameter")
+    if _fault("runner-exception", params.get("_task"), params.get("_client"), params.get("_k")):
+        raise RuntimeError("verif: injected failure in runner")
     if params.get("pre"):
         await asyncio.sleep(params["pre"])
     n = params.get("wire", 1)
